@@ -13,8 +13,8 @@
 (*  C20: after an exception the copies agree (all-or-nothing) and the writer  *)
 (*       lock is free.                                                        *)
 EXTENDS TraceBase
-VARIABLES l, wopen, hold, inop, need, last, retmax, applied, ndone, blk
-mv == <<wopen, hold, inop, need, last, retmax, applied, ndone, blk>>
+VARIABLES l, wopen, hold, inop, need, last, retmax, applied, ndone, blk, wstart, rstart, rdone
+mv == <<wopen, hold, inop, need, last, retmax, applied, ndone, blk, wstart, rstart, rdone>>
 MaxT == 8
 MaxC == 8
 ZT == [t \in 0..MaxT |-> 0]
@@ -22,45 +22,52 @@ Pow4 == <<1, 4, 16, 64, 256, 1024, 4096, 16384, 65536>>
 IsPref(p, v) == \E k \in 1..9 : v \div Pow4[k] = p
 Digits(v) == IF v <= 0 THEN 0 ELSE CHOOSE k \in 1..8 : Pow4[k] <= v /\ v < Pow4[k + 1]
 TInit == /\ l = 1 /\ wopen = [i \in 0..MaxC |-> 0] /\ hold = ZT /\ inop = [t \in 0..MaxT |-> ""] /\ need = ZT /\ last = ZT
-         /\ retmax = 0 /\ applied = ZT /\ ndone = 0 /\ blk = {} /\ TLCSet(1, 0)
+         /\ retmax = 0 /\ applied = ZT /\ ndone = 0 /\ blk = {} /\ wstart = ZT /\ rstart = ZT /\ rdone = [w \in 0..MaxT |-> ZT] /\ TLCSet(1, 0)
 Viol(what) == MonViol(l, what)
-Readers == {"read", "read2"}
+Readers == {"read", "read2", "relay"}
 TNext ==
     /\ l <= Len(Tr)
     /\ l' = l + 1
     /\ LET e == Tr[l] IN
        CASE e.k = "reset" ->
               /\ wopen' = [i \in 0..MaxC |-> 0] /\ hold' = ZT /\ inop' = [t \in 0..MaxT |-> ""] /\ need' = ZT /\ last' = ZT
-              /\ retmax' = 0 /\ applied' = ZT /\ ndone' = 0 /\ blk' = {}
+              /\ retmax' = 0 /\ applied' = ZT /\ ndone' = 0 /\ blk' = {} /\ wstart' = ZT /\ rstart' = ZT /\ rdone' = [w \in 0..MaxT |-> ZT]
          [] e.k = "call" ->
               /\ inop' = [inop EXCEPT ![e.t] = e.o] /\ need' = [need EXCEPT ![e.t] = retmax] /\ applied' = [applied EXCEPT ![e.t] = 0]
+              /\ wstart' = IF e.o = "modify" THEN [wstart EXCEPT ![e.t] = l] ELSE wstart
+              /\ rstart' = IF e.o \in Readers THEN [rstart EXCEPT ![e.t] = l] ELSE rstart
+              /\ rdone' = IF e.o = "modify" THEN [rdone EXCEPT ![e.t] = ZT] ELSE rdone
               /\ UNCHANGED <<wopen, hold, last, retmax, ndone, blk>>
          [] e.k = "ret" /\ e.o = "modify" ->
               /\ retmax' = IF e.v > retmax THEN e.v ELSE retmax
               /\ ndone' = IF e.v >= 0 \/ applied[e.t] >= 1 THEN ndone + 1 ELSE ndone
               /\ inop' = [inop EXCEPT ![e.t] = ""]
-              /\ UNCHANGED <<wopen, hold, need, last, applied, blk>>
+              \* under fair scheduling a writer waits for handles that are still held, not for a stream of new ones
+              /\ (\E r \in 1..MaxT : rdone[e.t][r] >= 10) => Viol("C14: a writer was delayed while one reader took and released 10 or more handles (livelock with a reader stream)")
+              /\ wstart' = [wstart EXCEPT ![e.t] = 0]
+              /\ UNCHANGED <<wopen, hold, need, last, applied, blk, rstart, rdone>>
          [] e.k = "ret" /\ e.o \in Readers ->
               /\ (e.v < 0) => Viol("C03: a reader saw a torn or changing value under its handle")
               /\ (e.v >= 0 /\ ~IsPref(need[e.t], e.v)) => Viol("C03: a read that started after modify() returned does not see that modification")
               /\ (e.v >= 0 /\ ~IsPref(last[e.t], e.v)) => Viol("C03: values observed by one reader went backwards")
               /\ last' = [last EXCEPT ![e.t] = IF e.v >= 0 THEN e.v ELSE @]
               /\ inop' = [inop EXCEPT ![e.t] = ""]
-              /\ UNCHANGED <<wopen, hold, need, retmax, applied, ndone, blk>>
+              /\ rdone' = [w \in 0..MaxT |-> IF wstart[w] # 0 /\ wstart[w] < rstart[e.t] THEN [rdone[w] EXCEPT ![e.t] = @ + 1] ELSE rdone[w]]
+              /\ UNCHANGED <<wopen, hold, need, retmax, applied, ndone, blk, wstart, rstart>>
          [] e.k = "hget" ->
               /\ (wopen[e.i] # 0) => Viol("C03: reader obtained a handle on a copy that is being written")
               /\ hold' = [hold EXCEPT ![e.t] = e.i]
-              /\ UNCHANGED <<wopen, inop, need, last, retmax, applied, ndone, blk>>
-         [] e.k = "hrel" -> hold' = [hold EXCEPT ![e.t] = 0] /\ UNCHANGED <<wopen, inop, need, last, retmax, applied, ndone, blk>>
+              /\ UNCHANGED <<wopen, inop, need, last, retmax, applied, ndone, blk, wstart, rstart, rdone>>
+         [] e.k = "hrel" -> hold' = [hold EXCEPT ![e.t] = 0] /\ UNCHANGED <<wopen, inop, need, last, retmax, applied, ndone, blk, wstart, rstart, rdone>>
          [] e.k \in {"wb", "cb"} ->
               /\ (\E u \in 1..MaxT : u # e.t /\ hold[u] = e.i) => Viol("C03: a writer touches the copy a reader's handle points to")
               /\ (\E j \in 1..MaxC : wopen[j] # 0 /\ wopen[j] # e.t) => Viol("C03: two writers are inside the object at once")
               /\ wopen' = [wopen EXCEPT ![e.i] = e.t]
-              /\ UNCHANGED <<hold, inop, need, last, retmax, applied, ndone, blk>>
+              /\ UNCHANGED <<hold, inop, need, last, retmax, applied, ndone, blk, wstart, rstart, rdone>>
          [] e.k \in {"we", "ce"} ->
               /\ wopen' = [wopen EXCEPT ![e.i] = 0]
               /\ applied' = IF e.k = "we" THEN [applied EXCEPT ![e.t] = @ + 1] ELSE applied
-              /\ UNCHANGED <<hold, inop, need, last, retmax, ndone, blk>>
+              /\ UNCHANGED <<hold, inop, need, last, retmax, ndone, blk, wstart, rstart, rdone>>
          [] e.k = "re" ->
               /\ (e.v # e.w) => Viol("C03: torn read")
               /\ UNCHANGED mv
@@ -75,11 +82,12 @@ TNext ==
          [] e.k = "soloyield" ->
               /\ (inop[e.t] \in Readers /\ hold[e.t] = 0) => Viol("C14: a reader spins waiting for a writer while acquiring")
               /\ UNCHANGED mv
-         [] e.k = "blocked" -> blk' = blk \cup {e.t} /\ UNCHANGED <<wopen, hold, inop, need, last, retmax, applied, ndone>>
+         [] e.k = "blocked" -> blk' = blk \cup {e.t} /\ UNCHANGED <<wopen, hold, inop, need, last, retmax, applied, ndone, wstart, rstart, rdone>>
          [] e.k \in {"deadlock", "budget"} ->
               /\ ((\E t \in 1..MaxT : inop[t] = "modify") /\ (\A u \in 1..MaxT : hold[u] = 0 /\ inop[u] \notin Readers))
                     => Viol("C14: a writer never completes although no read handle is held (C20: lock left behind)")
               /\ (\E t \in 1..MaxT : inop[t] \in Readers) => Viol("C14: a reader never completes")
+              /\ (\E w \in 1..MaxT : wstart[w] # 0 /\ \E r \in 1..MaxT : rdone[w][r] >= 10) => Viol("C14: a writer is starved by a stream of short-lived read handles (livelock)")
               /\ UNCHANGED mv
          [] e.k \in {"crash", "terminate"} -> Viol("C03: crash") /\ UNCHANGED mv
          [] OTHER -> UNCHANGED mv
